@@ -6,7 +6,8 @@ Everything works on `ast` trees of hail/python/hail/expr/types.py and friends; n
 from __future__ import annotations
 
 import ast
-from typing import Any, Dict, List, Optional, Sequence, Tuple
+import copy
+from typing import Any, Dict, List, Optional, Sequence, Set, Tuple
 
 from . import pyfacts as pf
 from .common import AnalysisError
@@ -448,3 +449,600 @@ def show_program(prog: Sequence[tuple]) -> str:
         elif k == 'raise':
             parts.append('RAISE')
     return ' '.join(parts)
+
+
+# --------------------------------------------------------------------------------------
+# type guards: which HailType classes does a test on a type object admit?
+# --------------------------------------------------------------------------------------
+
+
+class Guard:
+    """Result of evaluating a test on a type-valued expression.
+    subject: ast of the tested type expression;  admitted: names of the (concrete) classes of the module for which the test is
+    true;  dead: reason text when the test can never be true for any HailType instance (admitted is then empty)."""
+
+    def __init__(self, subject: ast.AST, admitted: frozenset, dead: Optional[str] = None, why: str = ''):
+        self.subject = subject
+        self.admitted = admitted
+        self.dead = dead
+        self.why = why
+
+    @property
+    def subject_text(self) -> str:
+        return pf.nsrc(self.subject)
+
+
+class TypeTables:
+    """Evaluates class-set expressions (`_numeric_types`, `_primitive_types.union({_tstr})`, tuples of classes) and the type
+    predicates built on them (`is_numeric(t)`, `isinstance(t, (...))`, `t.__class__ in G`, `t == tint32`, `t in G`) from the module's
+    own definitions.  Everything unrecognised yields None (the caller declines)."""
+
+    def __init__(self, m: pf.Module, classes: Optional[Dict[str, ast.ClassDef]] = None):
+        self.m = m
+        self.classes = classes if classes is not None else hail_type_classes(m)
+        self.all = frozenset(self.classes)
+        self.top_funcs = {f.name: f for f in m.tree.body if isinstance(f, ast.FunctionDef)}
+
+    # ---- class sets ---------------------------------------------------------
+    def _global(self, name: str) -> Optional[ast.expr]:
+        vals = []
+        for st in self.m.tree.body:
+            if isinstance(st, ast.Assign) and any(isinstance(t, ast.Name) and t.id == name for t in st.targets):
+                vals.append(st.value)
+            elif isinstance(st, ast.AnnAssign) and isinstance(st.target, ast.Name) and st.target.id == name and st.value is not None:
+                vals.append(st.value)
+            elif isinstance(st, ast.AugAssign) and isinstance(st.target, ast.Name) and st.target.id == name:
+                return None
+        return vals[0] if len(vals) == 1 else None
+
+    def class_set(self, e: ast.AST, depth: int = 16) -> Optional[frozenset]:
+        """Set of class names denoted by e (a set/tuple/list display of class names, a global bound to one, unions of those)."""
+        if depth <= 0:
+            return None
+        if isinstance(e, ast.Name):
+            if e.id in self.classes:
+                return frozenset([e.id])
+            g = self._global(e.id)
+            return self.class_set(g, depth - 1) if g is not None else None
+        if isinstance(e, (ast.Set, ast.Tuple, ast.List)):
+            out: set = set()
+            for x in e.elts:
+                s = self.class_set(x, depth - 1)
+                if s is None:
+                    return None
+                out |= s
+            return frozenset(out)
+        if isinstance(e, ast.Call) and isinstance(e.func, ast.Name) and e.func.id in ('set', 'frozenset', 'tuple', 'list') and len(e.args) == 1 and not e.keywords:
+            return self.class_set(e.args[0], depth - 1)
+        if isinstance(e, ast.Call) and isinstance(e.func, ast.Attribute) and e.func.attr in ('union', 'difference', 'intersection') and not e.keywords:
+            acc = self.class_set(e.func.value, depth - 1)
+            if acc is None:
+                return None
+            for a in e.args:
+                s = self.class_set(a, depth - 1)
+                if s is None:
+                    return None
+                acc = acc | s if e.func.attr == 'union' else (acc - s if e.func.attr == 'difference' else acc & s)
+            return acc
+        if isinstance(e, ast.BinOp) and isinstance(e.op, (ast.BitOr, ast.Sub, ast.BitAnd)):
+            a, b = self.class_set(e.left, depth - 1), self.class_set(e.right, depth - 1)
+            if a is None or b is None:
+                return None
+            return a | b if isinstance(e.op, ast.BitOr) else (a - b if isinstance(e.op, ast.Sub) else a & b)
+        return None
+
+    def subclasses(self, names: frozenset) -> frozenset:
+        out = set()
+        for cn, c in self.classes.items():
+            seen = set()
+            stack = [cn]
+            while stack:
+                x = stack.pop()
+                if x in seen or x not in self.classes and x != cn:
+                    continue
+                seen.add(x)
+                if x in names:
+                    out.add(cn)
+                    break
+                for b in self.classes[x].bases if x in self.classes else []:
+                    d = pf.dotted(b)
+                    if d:
+                        stack.append(d)
+        return frozenset(out)
+
+    def instance_class(self, e: ast.AST) -> Optional[str]:
+        """`tint32` / `hl.tint32` (a global bound to a zero-argument construction of a module class) -> that class name."""
+        d = pf.dotted(e)
+        if d is None:
+            return None
+        g = self._global(d.split('.')[-1])
+        if isinstance(g, ast.Call) and isinstance(g.func, ast.Name) and g.func.id in self.classes and not g.args and not g.keywords:
+            return g.func.id
+        return None
+
+    def instance_vs_classes_dead(self) -> Optional[str]:
+        """`<instance> in <set of classes>` is always False when HailType.__eq__ rejects non-instances, nothing overrides it and there is no metaclass."""
+        try:
+            ht = self.m.cls('HailType')
+        except AnalysisError:
+            return None
+        if ht.keywords:
+            return None
+        ms = methods(ht)
+        if '__eq__' not in ms:
+            return None
+        b = body_wo_doc(ms['__eq__'])
+        ps = param_names(ms['__eq__'])
+        if len(ps) != 2:
+            return None
+        other = ps[1]
+        if not (len(b) == 1 and isinstance(b[0], ast.Return) and isinstance(b[0].value, ast.BoolOp) and isinstance(b[0].value.op, ast.And)
+                and pf.nsrc(b[0].value.values[0]) == f'isinstance({other}, HailType)'):
+            return None
+        for cn, c in self.classes.items():
+            if '__eq__' in methods(c) or c.keywords:
+                return None
+        return ('the right-hand side is a set of classes while the left-hand side is an instance; HailType.__eq__ requires isinstance(other, HailType), '
+                'no subclass overrides __eq__, no metaclass: the membership test is always False')
+
+    # ---- predicates -----------------------------------------------------------
+    def guard(self, test: ast.AST, depth: int = 4) -> Optional[Guard]:
+        if depth <= 0:
+            return None
+        if isinstance(test, ast.UnaryOp) and isinstance(test.op, ast.Not):
+            g = self.guard(test.operand, depth)
+            if g is None:
+                return None
+            return Guard(g.subject, self.all - g.admitted, None, f'not ({g.why})')
+        if isinstance(test, ast.BoolOp):
+            gs = [self.guard(v, depth) for v in test.values]
+            if any(g is None for g in gs) or len({g.subject_text for g in gs}) != 1:
+                return None
+            acc = gs[0].admitted
+            for g in gs[1:]:
+                acc = acc | g.admitted if isinstance(test.op, ast.Or) else acc & g.admitted
+            dead = None
+            if not acc and all(g.dead for g in gs):
+                dead = '; '.join(g.dead for g in gs)
+            return Guard(gs[0].subject, acc, dead, (' or ' if isinstance(test.op, ast.Or) else ' and ').join(g.why for g in gs))
+        if isinstance(test, ast.Call) and isinstance(test.func, ast.Name) and test.func.id == 'isinstance' and len(test.args) == 2 and not test.keywords:
+            s = self.class_set(test.args[1])
+            if s is None:
+                return None
+            return Guard(test.args[0], self.subclasses(s), None, f'isinstance of {sorted(s)}')
+        if isinstance(test, ast.Call) and isinstance(test.func, ast.Name) and test.func.id in self.top_funcs and len(test.args) == 1 and not test.keywords:
+            fn = self.top_funcs[test.func.id]
+            ps = param_names(fn)
+            b = body_wo_doc(fn)
+            if len(ps) != 1 or fn.args.vararg or fn.args.kwarg or len(b) != 1 or not isinstance(b[0], ast.Return) or b[0].value is None:
+                return None
+            if any(n not in ('typecheck', 'typecheck_method') for n in pf.decorator_names(fn)):
+                return None
+            inner = _SubstName(ps[0], test.args[0]).visit(copy.deepcopy(b[0].value))
+            g = self.guard(inner, depth - 1)
+            if g is None:
+                return None
+            return Guard(g.subject, g.admitted, g.dead, f'{test.func.id}(): {g.why}')
+        if isinstance(test, ast.Compare) and len(test.ops) == 1:
+            l, op, r = test.left, test.ops[0], test.comparators[0]
+            if isinstance(op, (ast.In, ast.NotIn)):
+                neg = isinstance(op, ast.NotIn)
+                cls_of = None
+                if isinstance(l, ast.Attribute) and l.attr == '__class__':
+                    cls_of = l.value
+                elif isinstance(l, ast.Call) and isinstance(l.func, ast.Name) and l.func.id == 'type' and len(l.args) == 1:
+                    cls_of = l.args[0]
+                s = self.class_set(r)
+                if cls_of is not None and s is not None:
+                    return Guard(cls_of, (self.all - s) if neg else s, None, f'class {"not " if neg else ""}in {sorted(s)}')
+                if cls_of is None and s is not None and s:
+                    why = self.instance_vs_classes_dead()
+                    if why is None or neg:
+                        return None
+                    return Guard(l, frozenset(), f'`{pf.nsrc(test)}`: {pf.nsrc(r)} = {{{", ".join(sorted(s))}}}; {why}', 'instance in set of classes')
+                if cls_of is None and isinstance(r, (ast.Tuple, ast.List, ast.Set)):
+                    ics = [self.instance_class(x) for x in r.elts]
+                    if ics and all(ics):
+                        adm = frozenset(ics)
+                        return Guard(l, (self.all - adm) if neg else adm, None, f'{"not " if neg else ""}one of {sorted(adm)} instances')
+                return None
+            if isinstance(op, (ast.Eq, ast.NotEq, ast.Is, ast.IsNot)):
+                neg = isinstance(op, (ast.NotEq, ast.IsNot))
+                for a, b_ in ((l, r), (r, l)):
+                    ic = self.instance_class(b_)
+                    if ic is not None and self.instance_class(a) is None:
+                        adm = frozenset([ic])
+                        return Guard(a, (self.all - adm) if neg else adm, None, f'{"not " if neg else ""}the {ic} instance')
+                    # S.__class__ == C / type(S) is C
+                    cls_of = None
+                    if isinstance(a, ast.Attribute) and a.attr == '__class__':
+                        cls_of = a.value
+                    elif isinstance(a, ast.Call) and isinstance(a.func, ast.Name) and a.func.id == 'type' and len(a.args) == 1:
+                        cls_of = a.args[0]
+                    if cls_of is not None and isinstance(b_, ast.Name) and b_.id in self.classes:
+                        adm = frozenset([b_.id])
+                        return Guard(cls_of, (self.all - adm) if neg else adm, None, f'class {"is not" if neg else "is"} {b_.id}')
+                return None
+        return None
+
+
+class _SubstName(ast.NodeTransformer):
+    def __init__(self, name: str, rep: ast.AST):
+        self.name, self.rep = name, rep
+
+    def visit_Name(self, node: ast.Name):
+        if node.id == self.name and isinstance(node.ctx, ast.Load):
+            return copy.deepcopy(self.rep)
+        return node
+
+
+# --------------------------------------------------------------------------------------
+# codec purity: the result of a converter depends only on (parameters of the type, the converted value)
+# --------------------------------------------------------------------------------------
+
+MUTATORS = {'append', 'add', 'extend', 'insert', 'update', 'setdefault', 'pop', 'popitem', 'clear', 'remove', 'discard', 'appendleft', 'sort', 'reverse',
+            '__setitem__', '__delitem__', 'move_to_end'}
+EVICTORS = {'pop', 'popitem', 'clear', 'remove', 'discard', 'move_to_end'}
+HARMLESS_DECORATORS = {'staticmethod', 'classmethod', 'typecheck', 'typecheck_method', 'abc.abstractmethod', 'abstractmethod', 'property'}
+CACHE_DECORATORS = {'functools.lru_cache', 'lru_cache', 'functools.cache', 'cache'}
+
+
+class StateFinding:
+    def __init__(self, kind: str, construct: str, message: str, line: int = 0, detail: Any = None):
+        self.kind = kind  # 'violation' | 'ok' | 'undecided'
+        self.construct = construct
+        self.message = message
+        self.line = line
+        self.detail = detail
+
+
+def _loc_text(loc: tuple) -> str:
+    if loc[0] == 'inst':
+        return f'self.{loc[1]}'
+    if loc[0] == 'class':
+        return f'{loc[1]}.{loc[2]}'
+    if loc[0] == 'global':
+        return loc[1]
+    return f'default argument {loc[2]} of {loc[1]}'
+
+
+class _FnState:
+    """State accesses of one function (nested defs included)."""
+
+    def __init__(self, m: pf.Module, cname: Optional[str], fn: pf.FuncDef, module_classes: Set[str], module_globals: Set[str]):
+        self.m, self.cname, self.fn = m, cname, fn
+        self.qual = f'{cname}.{fn.name}' if cname else fn.name
+        ps = param_names(fn)
+        decos = pf.decorator_names(fn)
+        self.static = 'staticmethod' in decos
+        self.clsmeth = 'classmethod' in decos
+        self.selfname = ps[0] if (cname and ps and not self.static and not self.clsmeth) else None
+        self.clsname_param = ps[0] if (cname and ps and self.clsmeth) else None
+        self.params = set(ps) | {a.arg for a in fn.args.kwonlyargs}
+        if fn.args.vararg:
+            self.params.add(fn.args.vararg.arg)
+        if fn.args.kwarg:
+            self.params.add(fn.args.kwarg.arg)
+        self.module_classes, self.module_globals = module_classes, module_globals
+        self.defs = pf.assignments(fn)
+        self.globals_declared = {n for st in ast.walk(fn) if isinstance(st, (ast.Global, ast.Nonlocal)) for n in st.names}
+        self.locals = {n.id for n in ast.walk(fn) if isinstance(n, ast.Name) and isinstance(n.ctx, (ast.Store, ast.Del))} - self.globals_declared
+        for sub in ast.walk(fn):
+            if isinstance(sub, (ast.FunctionDef, ast.AsyncFunctionDef, ast.Lambda)) and sub is not fn:
+                a = sub.args
+                self.locals |= {x.arg for x in a.posonlyargs + a.args + a.kwonlyargs}
+        self.locals |= self.params
+        # mutable defaults
+        self.mut_defaults: Set[str] = set()
+        pos = fn.args.posonlyargs + fn.args.args
+        for a, d in list(zip(pos[len(pos) - len(fn.args.defaults):], fn.args.defaults)) + [(a, d) for a, d in zip(fn.args.kwonlyargs, fn.args.kw_defaults) if d is not None]:
+            if isinstance(d, (ast.Dict, ast.List, ast.Set, ast.DictComp, ast.ListComp, ast.SetComp)) or \
+                    (isinstance(d, ast.Call) and pf.dotted(d.func) in ('dict', 'list', 'set', 'collections.defaultdict', 'defaultdict', 'collections.OrderedDict', 'OrderedDict', 'bytearray')):
+                self.mut_defaults.add(a.arg)
+        self.par: Dict[ast.AST, ast.AST] = {}
+        for p in ast.walk(fn):
+            for c in ast.iter_child_nodes(p):
+                self.par[c] = p
+        self.writes: List[dict] = []
+        self.reads: List[dict] = []
+        self._scan()
+
+    def loc_of(self, e: ast.AST, depth: int = 3) -> Optional[tuple]:
+        if isinstance(e, ast.Attribute):
+            v = e.value
+            if isinstance(v, ast.Name):
+                if self.selfname and v.id == self.selfname:
+                    return ('inst', e.attr)
+                if self.clsname_param and v.id == self.clsname_param:
+                    return ('class', self.cname, e.attr)
+                if v.id in self.module_classes and v.id not in self.locals:
+                    return ('class', v.id, e.attr)
+            if self.selfname and ((isinstance(v, ast.Attribute) and v.attr == '__class__' and isinstance(v.value, ast.Name) and v.value.id == self.selfname)
+                                  or (isinstance(v, ast.Call) and pf.dotted(v.func) == 'type' and len(v.args) == 1 and isinstance(v.args[0], ast.Name) and v.args[0].id == self.selfname)):
+                return ('class', self.cname, e.attr)
+            return None
+        if isinstance(e, ast.Name):
+            if e.id in self.mut_defaults:
+                return ('default', self.qual, e.id)
+            if e.id in self.globals_declared or (e.id in self.module_globals and e.id not in self.locals):
+                return ('global', e.id)
+            if e.id in self.locals and e.id not in self.params and depth > 0:
+                ds = self.defs.get(e.id, [])
+                if len(ds) == 1 and isinstance(ds[0], (ast.Attribute, ast.Name)):
+                    return self.loc_of(ds[0], depth - 1)
+        return None
+
+    def _scan(self) -> None:
+        fn = self.fn
+        write_bases: Set[int] = set()
+        for n in ast.walk(fn):
+            tgts: List[Tuple[ast.AST, Optional[ast.AST], ast.AST]] = []
+            if isinstance(n, ast.Assign):
+                tgts = [(t, n.value, n) for t in n.targets]
+            elif isinstance(n, ast.AnnAssign) and n.value is not None:
+                tgts = [(n.target, n.value, n)]
+            elif isinstance(n, ast.AugAssign):
+                tgts = [(n.target, n.value, n)]
+            elif isinstance(n, ast.Delete):
+                tgts = [(t, None, n) for t in n.targets]
+            for t, val, st in tgts:
+                for tt in (t.elts if isinstance(t, (ast.Tuple, ast.List)) else [t]):
+                    form = 'del' if isinstance(st, ast.Delete) else ('aug' if isinstance(st, ast.AugAssign) else 'assign')
+                    if isinstance(tt, ast.Subscript):
+                        loc = self.loc_of(tt.value)
+                        if loc is not None:
+                            write_bases.add(id(tt.value))
+                            self.writes.append(dict(loc=loc, form='delitem' if form == 'del' else ('augitem' if form == 'aug' else 'setitem'), key=tt.slice, value=val, node=st, fs=self))
+                    elif isinstance(tt, ast.Attribute):
+                        loc = self.loc_of(tt)
+                        if loc is not None:
+                            write_bases.add(id(tt))
+                            self.writes.append(dict(loc=loc, form='attr-' + form, key=None, value=val, node=st, fs=self))
+                    elif isinstance(tt, ast.Name) and tt.id in self.globals_declared:
+                        write_bases.add(id(tt))
+                        self.writes.append(dict(loc=('global', tt.id), form='attr-' + form, key=None, value=val, node=st, fs=self))
+            if isinstance(n, ast.Call) and isinstance(n.func, ast.Attribute) and n.func.attr in MUTATORS:
+                loc = self.loc_of(n.func.value)
+                if loc is not None:
+                    write_bases.add(id(n.func.value))
+                    key = n.args[0] if n.func.attr == 'setdefault' and n.args else None
+                    val = n.args[1] if n.func.attr == 'setdefault' and len(n.args) > 1 else None
+                    self.writes.append(dict(loc=loc, form='call:' + n.func.attr, key=key, value=val, node=n, fs=self))
+        for n in ast.walk(fn):
+            if not isinstance(n, (ast.Attribute, ast.Name)) or not isinstance(getattr(n, 'ctx', None), ast.Load) or id(n) in write_bases:
+                continue
+            p = self.par.get(n)
+            if isinstance(p, ast.Attribute) and p.value is n and self.loc_of(p) is not None:
+                continue  # `tlocus` inside `tlocus._x` etc.
+            loc = self.loc_of(n)
+            if loc is None:
+                continue
+            form, key = 'load', None
+            if isinstance(p, ast.Attribute) and p.value is n:
+                pp = self.par.get(p)
+                if isinstance(pp, ast.Call) and pp.func is p:
+                    if p.attr in ('get',) and pp.args:
+                        form, key = 'get', pp.args[0]
+                    elif p.attr in ('keys', 'values', 'items', 'copy', '__len__', '__contains__'):
+                        form = 'load'
+            elif isinstance(p, ast.Subscript) and p.value is n and isinstance(p.ctx, ast.Load):
+                form, key = 'getitem', p.slice
+            elif isinstance(p, ast.Compare) and len(p.ops) == 1 and isinstance(p.ops[0], (ast.In, ast.NotIn)) and p.comparators[0] is n:
+                form, key = 'contains', p.left
+            elif isinstance(p, ast.Call) and pf.dotted(p.func) == 'len' and p.args and p.args[0] is n:
+                form = 'len'
+            self.reads.append(dict(loc=loc, form=form, key=key, node=n, fs=self))
+
+    # ---- atoms -------------------------------------------------------------
+    def atoms(self, e: Optional[ast.AST], skip_loc: Optional[tuple], depth: int = 6, seen: Optional[Set[str]] = None) -> Set[str]:
+        """Inputs an expression depends on: 'self.<attr>' (a parameter of the type), '<param>' / '<param>[...]' access paths."""
+        out: Set[str] = set()
+        if e is None:
+            return out
+        seen = seen if seen is not None else set()
+
+        def chain_root(x: ast.AST) -> Optional[ast.Name]:
+            while isinstance(x, (ast.Attribute, ast.Subscript)):
+                if isinstance(x, ast.Subscript) and not isinstance(x.slice, ast.Constant):
+                    return None
+                x = x.value
+            return x if isinstance(x, ast.Name) else None
+
+        def rec(x: ast.AST) -> None:
+            if isinstance(x, (ast.Attribute, ast.Subscript)):
+                r = chain_root(x)
+                if r is not None and self.selfname and r.id == self.selfname:
+                    cur = x
+                    while not (isinstance(cur, ast.Attribute) and isinstance(cur.value, ast.Name)):
+                        cur = cur.value  # type: ignore[union-attr]
+                    out.add(f'self.{cur.attr}')
+                    return
+                if r is not None and r.id in self.params and r.id != self.selfname:
+                    out.add(pf.nsrc(x))
+                    return
+            if isinstance(x, ast.Name):
+                if not isinstance(x.ctx, ast.Load):
+                    return
+                if self.selfname and x.id == self.selfname:
+                    out.add('self')
+                elif x.id in self.params:
+                    out.add(x.id)
+                elif x.id in self.defs and x.id not in seen and depth > 0:
+                    seen.add(x.id)
+                    for d in self.defs[x.id]:
+                        src = d
+                        if isinstance(d, (ast.For, ast.AsyncFor, ast.comprehension)):
+                            src = d.iter
+                        elif isinstance(d, (ast.Assign, ast.AugAssign)):
+                            src = d.value
+                        elif isinstance(d, ast.withitem):
+                            src = d.context_expr
+                        elif not isinstance(d, ast.expr):
+                            continue
+                        if skip_loc is not None and any(self.loc_of(y) == skip_loc for y in ast.walk(src) if isinstance(y, (ast.Attribute, ast.Name))):
+                            continue  # the value read back from the store itself
+                        out.update(self.atoms(src, skip_loc, depth - 1, seen))
+                return
+            for c in ast.iter_child_nodes(x):
+                rec(c)
+
+        rec(e)
+        return out
+
+
+def _covered(atom: str, keys: Set[str]) -> bool:
+    return any(atom == k or atom.startswith(k + '[') or atom.startswith(k + '.') for k in keys)
+
+
+def codec_state(m: pf.Module, classes: Dict[str, ast.ClassDef], is_codec) -> Tuple[List[StateFinding], int]:
+    """Purity / memo-key analysis of every method `is_codec(name)` of the given classes (and the same-module helpers they call).
+    Returns (findings, number of codec methods analysed).  A finding is a violation when a recognised shape makes the result depend on
+    history; 'undecided' when state is read and written in a shape that is not recognised."""
+    rel = m.rel
+    module_classes = {c.name for c in m.tree.body if isinstance(c, ast.ClassDef)}
+    top_funcs = {f.name: f for f in m.tree.body if isinstance(f, (ast.FunctionDef, ast.AsyncFunctionDef))}
+    module_globals: Set[str] = set()
+    for st in m.tree.body:
+        for t in (st.targets if isinstance(st, ast.Assign) else [st.target] if isinstance(st, (ast.AnnAssign, ast.AugAssign)) else []):
+            if isinstance(t, ast.Name):
+                module_globals.add(t.id)
+    all_cls = {c.name: c for c in m.tree.body if isinstance(c, ast.ClassDef)}
+
+    def mro_lookup(cn: str, meth: str, seen=()) -> Optional[Tuple[str, pf.FuncDef]]:
+        c = all_cls.get(cn)
+        if c is None or cn in seen:
+            return None
+        ms = methods(c)
+        if meth in ms:
+            return cn, ms[meth]
+        for b in c.bases:
+            d = pf.dotted(b)
+            if d in all_cls:
+                r = mro_lookup(d, meth, seen + (cn,))
+                if r is not None:
+                    return r
+        return None
+
+    units: Dict[Tuple[Optional[str], str], _FnState] = {}
+    roots: List[Tuple[Optional[str], str]] = []
+    work: List[Tuple[Optional[str], pf.FuncDef, int]] = []
+    for cn, c in classes.items():
+        for nm, fn in methods(c).items():
+            if is_codec(nm):
+                roots.append((cn, nm))
+                work.append((cn, fn, 0))
+    base = all_cls.get('HailType')
+    if base is not None and 'HailType' not in classes:
+        for nm, fn in methods(base).items():
+            if is_codec(nm):
+                roots.append(('HailType', nm))
+                work.append(('HailType', fn, 0))
+    findings: List[StateFinding] = []
+    owner: Dict[Tuple[Optional[str], str], Set[str]] = {}
+    while work:
+        cn, fn, d = work.pop()
+        key = (cn, fn.name)
+        if key in units:
+            continue
+        fs = _FnState(m, cn, fn, module_classes, module_globals)
+        units[key] = fs
+        for dn in pf.decorator_names(fn):
+            if dn in HARMLESS_DECORATORS:
+                continue
+            if dn in CACHE_DECORATORS:
+                findings.append(StateFinding('ok', f'{rel}::{fs.qual}::{dn}', 'memoised on all of its arguments (including self): the key is complete by construction', fn.lineno))
+                continue
+            findings.append(StateFinding('undecided', f'{rel}::{fs.qual}::decorator {dn}', f'{rel}::{fs.qual} is wrapped by an unrecognised decorator `{dn}`', fn.lineno))
+        if d >= 3:
+            continue
+        for call in (n for n in ast.walk(fn) if isinstance(n, ast.Call)):
+            f = call.func
+            tgt: Optional[Tuple[Optional[str], pf.FuncDef]] = None
+            if isinstance(f, ast.Attribute) and isinstance(f.value, ast.Name):
+                if cn and fs.selfname and f.value.id == fs.selfname:
+                    tgt = mro_lookup(cn, f.attr)
+                elif f.value.id in all_cls and f.value.id not in fs.locals:
+                    tgt = mro_lookup(f.value.id, f.attr)
+            elif isinstance(f, ast.Name) and f.id in top_funcs and f.id not in fs.locals:
+                tgt = (None, top_funcs[f.id])
+            if tgt is not None and not is_codec(tgt[1].name) and tgt[1].name not in ('__init__',):
+                work.append((tgt[0], tgt[1], d + 1))
+    # aggregate per location
+    writes: Dict[tuple, List[dict]] = {}
+    reads: Dict[tuple, List[dict]] = {}
+    for fs in units.values():
+        for w in fs.writes:
+            writes.setdefault(w['loc'] if w['loc'][0] != 'inst' else ('inst', fs.cname, w['loc'][1]), []).append(w)
+    for fs in units.values():
+        for r in fs.reads:
+            k = r['loc'] if r['loc'][0] != 'inst' else ('inst', fs.cname, r['loc'][1])
+            if k in writes:
+                reads.setdefault(k, []).append(r)
+    for k, ws in sorted(writes.items(), key=lambda kv: str(kv[0])):
+        loc = ws[0]['loc']
+        shared = loc[0] != 'inst'
+        lt = _loc_text(loc)
+        where = ws[0]['fs'].qual
+        cons = f'{rel}::{where}::state {lt}'
+        line = getattr(ws[0]['node'], 'lineno', 0)
+        rs = reads.get(k, [])
+        vreads = [r for r in rs if r['form'] != 'len']
+        # a bare counter (`X.n += 1`) reads itself only
+        if not vreads:
+            findings.append(StateFinding('ok', cons, f'{lt} is written by {where} but never read back by any converter: results do not depend on it', line))
+            continue
+        scope = ('shared by every instance of the type (and every call)' if shared else 'kept on the type instance')
+        keyed_w = all(w['form'] in ('setitem',) or w['form'] == 'call:setdefault' or w['form'] in ('delitem',) or (w['form'].startswith('call:') and w['form'][5:] in EVICTORS) for w in ws)
+        keyed_r = all(r['form'] in ('get', 'getitem', 'contains') for r in vreads)
+        plain_w = all(w['form'] in ('attr-assign',) for w in ws)
+        plain_r = all(r['form'] == 'load' for r in vreads)
+        if keyed_w and keyed_r:
+            bad = None
+            for w in ws:
+                if w['form'] not in ('setitem', 'call:setdefault') or w['value'] is None:
+                    continue
+                fs = w['fs']
+                va = fs.atoms(w['value'], loc)
+                if not shared:
+                    va = {a for a in va if not a.startswith('self')}
+                keysets = [fs.atoms(w['key'], loc)] + [r['fs'].atoms(r['key'], loc) for r in vreads]
+                for ka in keysets:
+                    miss = sorted(a for a in va if not _covered(a, ka))
+                    if miss:
+                        bad = (w, miss, sorted(ka), sorted(va))
+                        break
+                if bad:
+                    break
+            if bad:
+                w, miss, ka, va = bad
+                selfmiss = [a for a in miss if a.startswith('self')]
+                hist = (f'decode the same wire value first with a type whose {", ".join(selfmiss)} is A and then with one whose {", ".join(selfmiss)} is B: the second call returns the object built for A'
+                        if selfmiss else f'convert two values that agree on {ka} but differ in {miss}: the second call returns the result remembered for the first')
+                findings.append(StateFinding('violation', cons,
+                                             f'{where} memoises in {lt} ({scope}) under the key `{pf.nsrc(w["key"])}` (depends on {ka}) a value `{pf.nsrc(w["value"])[:80]}` that also depends on {miss}: '
+                                             f'the result of a conversion depends on what was converted before. History: {hist}', getattr(w['node'], 'lineno', line),
+                                             dict(key_atoms=ka, value_atoms=va, missing=miss)))
+            else:
+                findings.append(StateFinding('ok', cons, f'memo {lt}: every input of the stored value is part of the key', line))
+            continue
+        if plain_w and plain_r:
+            bad = None
+            for w in ws:
+                fs = w['fs']
+                va = fs.atoms(w['value'], loc)
+                if not shared:
+                    va = {a for a in va if not a.startswith('self')}
+                if va:
+                    bad = (w, sorted(va))
+                    break
+            if bad:
+                w, va = bad
+                findings.append(StateFinding('violation', cons,
+                                             f'{where} stores `{pf.nsrc(w["value"])[:80]}` (depends on {va}) in {lt} ({scope}) and a converter reads it back: a later conversion sees the value computed '
+                                             f'for an earlier input. History: convert two values that differ in {va}', getattr(w['node'], 'lineno', line), dict(value_atoms=va)))
+            else:
+                findings.append(StateFinding('ok', cons, f'{lt} caches a value that depends on nothing but the type itself', line))
+            continue
+        findings.append(StateFinding('undecided', cons, f'{where} reads and writes {lt} ({scope}) in a shape that is not a recognised memo (forms: writes {sorted({w["form"] for w in ws})}, '
+                                                        f'reads {sorted({r["form"] for r in vreads})}): cannot decide whether results depend on history', line))
+    return findings, len(roots)
